@@ -520,7 +520,9 @@ impl Prop for C02 {
                 crate::rsm::valve::set_bz_level(case.bz_level);
                 let transport = Transport {
                     info: auto(&case.framing[0], lens[0]).resolve(lens[0], true, 0x0000_1234),
-                    players: auto(&case.framing[1], lens[1]).resolve(lens[1], !no_size, 0x0000_0777),
+                    // (a GoldSrc answer id is any 32-bit number: the players answer uses one with the top bit set, which means
+                    // "compressed" in the Source format only)
+                    players: auto(&case.framing[1], lens[1]).resolve(lens[1], !no_size, if case.engine.gold() { 0xF000_0777 } else { 0x0000_0777 }),
                     rules: auto(&case.framing[2], lens[2]).resolve(lens[2], !no_size, 0x7fff_ffff),
                     rounds: case.rounds,
                     obsolete_info: obsolete,
